@@ -123,6 +123,19 @@ pub fn cli_line(toks: &[&str]) -> String {
                 }
             }
         }
+        if upload && toks[9] == "R" {
+            // the peer stays silent: within the negotiated timeout (plus slack) the client must send its window again
+            let mut n = 0usize;
+            let deadline = std::time::Instant::now() + Duration::from_millis(t * 1000 + 700);
+            while std::time::Instant::now() < deadline {
+                if let Some((p, _, _)) = recv_packet(&peer, Duration::from_millis(50)) {
+                    if let Ok(Packet::Data { .. }) = p {
+                        n += 1;
+                    }
+                }
+            }
+            conv.push(format!("R{}", n));
+        }
         // end whatever is still running
         if !handle.is_finished() {
             let e = Packet::Error { code: ErrorCode::NotDefined, msg: "verif: end".into() };
